@@ -33,6 +33,15 @@ import c13_corpus
 from common import cz, cbool, clist, cpair, cn
 
 THEOREMS = [
+    'C13_family_dedup',
+    'C13_family_written',
+    'C13_family_inline',
+    'C13_family_fill',
+    'C13_family_linked',
+]
+# the members of the families (coq/Properties/C13.v): each is a Theorem of its
+# own there; one Print Assumptions per family audits them
+MEMBERS = [
     'C13_dedup_merges_equal',
     'C13_dedup_merges_tested',
     'C13_desc_eqb_sound',
@@ -70,6 +79,8 @@ THEOREMS = [
     'C13_options_same_written_linked',
     'C13_options_same_written_dedup_linked',
     'C13_options_same_written_provenance_linked',
+    'C13_options_same_written_tr_linked',
+    'C13_fill_tr_items',
 ]
 TRUSTED = [
     'hand-written model coq/C13/Model.v (modelled, tied by execution only)',
@@ -794,6 +805,7 @@ def run(res, tier, seed, proofs_ok):
                 'with universes/fills/lattices/unions/duplicate surfaces under '
                 'the option vectors. non-trivial = duplicates present / '
                 'non-empty to_inline / nested or duplicated deck')
+    res.extra['family_members'] = MEMBERS
     run_witnesses(res)
     run_witness_empty(res)
     run_corpus(res)
